@@ -153,3 +153,110 @@ claim('C06', 'proof',
       'Trusted: Lean kernel, py2lean, harness; sqrt laws as hypotheses (witnessed over R); '
       '_plane_from_vertices loop and hole merging are hand models.',
       'DESIGN.md 4 C06')
+claim('C05', 'proof',
+      'Lean 4 theorems on the generated earcut predicates + tiling algebra; executable Lean triangulation certificate (Spec/TriCert) applied to the real earcut output',
+      'Proved for every input: the generated _area/_point_in_triangle/_equals/_intersects '
+      'kernels (sign/orientation characterisations, incl. the repaired chained comparison), the '
+      'ear-removal / chord-split / hole-bridge additivity of the shoelace functional (a clipped '
+      'ear sequence sums to the polygon area), the fan shortcut for convex input. The linked-list '
+      'ear clipper (z-order hashing, cure/split fall-backs, hole elimination order) is NOT '
+      'modelled: each triangulation returned by the real code is certified clause by clause '
+      '(provenance, orientation, strict edge incidence, exact area, centroids inside) by a Lean '
+      'specification run at Q and by its integer twin on every generated shape.',
+      'Trusted: Lean kernel, py2lean, harness, Spec/TriCert. Partial: termination and global '
+      'correctness of ear clipping are not theorems. Two open findings (T-junction at a vertex '
+      'collinear with a hole bridge; fan shortcut with a straight corner at vertex 0).',
+      'DESIGN.md 4 C05')
+claim('C07', 'proof',
+      'Lean 4 theorems on a literal model of Polyface3D edge bookkeeping (loop invariant, induction over faces) + model/code correspondence; volume sign algebra; oracle on the real code',
+      'Model/EdgeInfo is a literal transcription of Polyface3D.__init__/_compute_edge_info '
+      '(first-occurrence lookup, reversed side first). Proved for every face list: edge_types[i]+1 '
+      'is the number of uses of edge i, stored edges are exactly the used ones without '
+      'duplicates, naked/internal/non-manifold classes equal the specification, is_solid iff '
+      'every edge is used twice, invariance under face order / loop rotation / reversal, '
+      'removing one face of a solid exposes exactly its edges, duplicating one makes exactly '
+      'them non-manifold, the extrusion prism is closed for every n >= 3, the from_box tables '
+      'are the computed ones; flipping faces negates volume terms, outward star-shaped solids '
+      'have positive volume. The model is run against the real class on random face lists on '
+      'every check.',
+      'Trusted: Lean kernel, harness, model correspondence (hand model, not generated). '
+      'Outwardness by ray parity (get_outward_faces), tolerance welding in from_faces and '
+      'overlapping-edge detection are decided by the oracle on the real code only. Open '
+      'findings: get_outward_faces with test rays through shared edges, _point_on_face.',
+      'DESIGN.md 4 C07')
+claim('C08', 'proof',
+      'Lean 4 theorems on a literal model of the crossing-number tests built from generated intersection kernels + model/code correspondence; exact winding oracle on the real code',
+      'Model/PointInside transcribes is_point_inside / is_point_inside_bound_rect / '
+      'is_point_on_edge / point_relationship on top of the generated segment-ray kernels. '
+      'Proved for every polygon and point: the test is the parity of the closed-form per-edge '
+      'predicate; invariance under start vertex, reversal, translation, invertible linear maps '
+      'and scaling of the test direction; for horizontal rays in general position it equals the '
+      'even-odd specification (Spec/Contain); the bounding-rectangle shortcut only rejects '
+      'points outside the vertex hull; point_relationship is 0 exactly within tolerance of an '
+      'edge (using the C12 minimality theorems); the decision tables of polygon_relationship and '
+      'does_polygon_touch.',
+      'Trusted: Lean kernel, py2lean, harness, model correspondence. Not proved: the Jordan '
+      'curve theorem (parity = containment), Face3D/Polyface3D containment, the geometric '
+      'sub-results of polygon_relationship (inputs of the decision model) - decided by the exact '
+      'oracle on the real code.',
+      'DESIGN.md 4 C08')
+claim('C09', 'proof',
+      'Lean 4 theorems on plane lifting of set operations and on a literal model of the loop-grouping step + model/code correspondence; exact cell-set oracle on the real code',
+      'Proved: the plane map is injective and commutes with union/intersection/difference, '
+      'lifted faces lie on the plane with Newell vector shoelace*n; the model of '
+      'Face3D._from_bool_poly grouping (sorted loops, containment tests) yields faces that are '
+      'disjoint and whose union is the even-odd region, for any nesting depth, under a laminar '
+      'containment relation; area identities of split/difference/union. The graph-based '
+      'split_with_line(s) and the sweep are NOT modelled: they are decided by the exact cell-set '
+      'specification (Spec/CellBool) on the real outputs.',
+      'Trusted: Lean kernel, harness, Spec/CellBool, model correspondence. Partial. Seven open '
+      'findings in split_with_lines / coplanar_* (cuts along edges, dangling cut ends, rounding '
+      'dependent non-splits) are listed in known_findings.json.',
+      'DESIGN.md 4 C09')
+claim('C15', 'proof',
+      'Lean 4 theorems on literal models of the colinear / duplicate vertex scans (index loops proved equal to a list recursion) + model/code correspondence over every rotation',
+      'Model/Colinear transcribes Polygon2D/Face3D/Polyline2D/3D.remove_colinear_vertices '
+      '(skip counters, seam patch, Python negative indices) and remove_duplicate_vertices. '
+      'Proved for every list length: the source test equals its squared form; the output is a '
+      'sublist of a rotation of the input (end points kept for open chains); every dropped '
+      'vertex is within the tolerance band of the chord that replaces it; the duplicate filter '
+      'is idempotent when equivalence is transitive on the input; exactly collinear decorations '
+      'are removed and corners kept for every start position (two _partial theorems: corner '
+      'hypotheses stated on the chords the scan uses).',
+      'Trusted: Lean kernel, harness, model correspondence (hand model; float ties within 1e-9 '
+      'of the threshold are skipped). The derivation of the corner hypotheses from generator '
+      'parameters is left to the oracle over every rotation.',
+      'DESIGN.md 4 C15')
+claim('C18', 'proof',
+      'Lean 4 theorems on a literal model of join_segments/_group_vertices (fuel-indexed loops, invariants) + model/code correspondence; multiset oracle on the real code',
+      'Model/JoinSegments transcribes the chain builder for any point type and any equivalence '
+      'test. Proved for every segment soup, order and orientation: the chain edges are in '
+      'one-to-one correspondence with the input segments (multiset equality in the exact case), '
+      'every chain has >= 2 vertices that are input end points, total length is preserved, no '
+      'two chains have equivalent ends left (maximality), and the fuel bound is never reached.',
+      'Trusted: Lean kernel, harness, model correspondence. Tolerance-equivalence is abstract '
+      '(no transitivity assumed).',
+      'DESIGN.md 4 C18')
+claim('C19', 'proof',
+      'Lean 4 theorems on generated scale kernels and literal models of perimeter/core quads and offset vertices + model/code correspondence; exact oracle on the real code',
+      'Proved for every input: perimeter quads + core have the shoelace of the polygon (with '
+      'holes of either winding), scaling about a point multiplies the shoelace/Newell vector by '
+      's^2 so a sub-face by ratio has area ratio*A on the parent plane, scaled vertices stay in '
+      'every half-space containing centre and vertices (0<=k<=1), the offset vertex formula is at '
+      'distance d from both adjacent edges, LineSegment2D.offset is parallel at distance |d| on '
+      'the left. Trig/sqrt enter as law hypotheses witnessed over R (Props/C19Real).',
+      'Trusted: Lean kernel, py2lean, harness, model correspondence. Not proved: simplicity / '
+      'non-overlap of offset loops, extract_rectangle, sub_rects_from_rect_* (oracle only).',
+      'DESIGN.md 4 C19')
+claim('C20', 'proof',
+      'Lean 4 theorems on literal models of grid generation and vertex/face removal (index closed forms, filter alignment) + model/code correspondence; exact oracle incl. OBJ/STL round trips',
+      'Proved for every nx, ny: grid vertex (i,j) and face (i,j) closed forms, indices in range, '
+      'every cell a translate of one rectangle with area |dx*dy| and the reported centroid, '
+      '_domain_dimensions (num*dim = domain; equals the requested size iff it divides - the '
+      'repaired cached-area defect in theorem form); remove_vertices/remove_faces_only keep '
+      'faces, per-face data and re-indexed vertices aligned (filter/zip alignment, same points); '
+      'the STL quad split preserves area and Newell vector.',
+      'Trusted: Lean kernel, harness, model correspondence. Text-level OBJ/STL parsing, the inside '
+      'filter of from_polygon_grid and float accumulation in the grid loops are decided by the '
+      'oracle on the real code.',
+      'DESIGN.md 4 C20')
